@@ -230,6 +230,9 @@ func (it *Interp) resolveThis(env *Env) Value {
 		return it.GlobalObj
 	}
 	if !te.thisInit {
+		if it.evalActive > 0 {
+			it.trap(Known.ThisInEvalBeforeSuper, "C02-this-in-eval-before-super")
+		}
 		it.throwError("ReferenceError")
 	}
 	return te.thisVal
